@@ -85,7 +85,7 @@ def run(ctx):
             if r["cls"] == "file" and "variant_of" not in r and rng.random() < 0.08 and "/" in r["values"].get("name", ""):
                 # two accesses to names that differ only in letter case or in the zero padding of a number: distinct files, both
                 # must keep their rule
-                sa, sb = rng.choice([("-n7", "-n07"), ("-xa", "-xA"), ("-v10", "-v010"), ("-Rc", "-rc")])
+                sa, sb = rng.choice([("-n7", "-n07"), ("-xa", "-xA"), ("-v10", "-v010"), ("-Rc", "-rc"), ("-résumé", "-rèsumé"), ("-aü", "-aú")])
                 tag += 1
                 twin = dict(r)
                 ts2 = logsgen.tagstr(tag)
